@@ -244,6 +244,10 @@ def c04(ctx):
             out.append((cid, 'field address outside the slice: %s' % kv.get('inside')))
     for cid, l in ctx.ops('L'):
         n += 1
+        r = ctx.rres.get(cid)
+        m = re.search(r'abytes=(\S+)', r or '')
+        if m and m.group(1) != 'ok':
+            out.append((cid, 'AlignedBytes does not give the requested length / alignment / contents: %s' % m.group(1)))
     return out, n
 
 
